@@ -20,13 +20,13 @@ import (
 
 type rat = big.Rat
 
-func rnew() *rat                  { return new(big.Rat) }
-func radd(a, b *rat) *rat         { return rnew().Add(a, b) }
-func rsub(a, b *rat) *rat         { return rnew().Sub(a, b) }
-func rmul(a, b *rat) *rat         { return rnew().Mul(a, b) }
-func rquo(a, b *rat) *rat         { return rnew().Quo(a, b) }
-func rint(i int64) *rat           { return rnew().SetInt64(i) }
-func rfromInt(b *big.Int) *rat    { return rnew().SetInt(b) }
+func rnew() *rat               { return new(big.Rat) }
+func radd(a, b *rat) *rat      { return rnew().Add(a, b) }
+func rsub(a, b *rat) *rat      { return rnew().Sub(a, b) }
+func rmul(a, b *rat) *rat      { return rnew().Mul(a, b) }
+func rquo(a, b *rat) *rat      { return rnew().Quo(a, b) }
+func rint(i int64) *rat        { return rnew().SetInt64(i) }
+func rfromInt(b *big.Int) *rat { return rnew().SetInt(b) }
 func rmin(a, b *rat) *rat {
 	if a.Cmp(b) <= 0 {
 		return a
